@@ -218,3 +218,96 @@ def builder_ops_events(rng, n=40):
             evs.append({"ev": "rename", "inp": inp, "added": added, "names": names, "sub": sub,
                         "names_after": [nd.name for nd in nodes]})
     return evs
+
+
+# ---- VarWiring: ownership of nodes by variables before a model is built -----------------
+class WiringWorld:
+    """NV variables (born with a private Value node, no distribution, no name) and NN free nodes."""
+
+    def __init__(self, nv, kinds):
+        import tensorflow_probability.substrates.jax.distributions as tfd
+        self.nv, self.kinds = nv, list(kinds)
+        self.free = [lsl.Value(0.0) if k == "val" else lsl.Dist(tfd.Normal, loc=0.0, scale=1.0) for k in kinds]
+        self.vars = [lsl.Var(0.0) for _ in range(nv)]
+        self.nodes = self.free + [v.value_node for v in self.vars]     # ids 1..NN, NN+1..NN+NV
+
+    def hdr(self):
+        return {"NV": self.nv, "NN": len(self.free), "kind": self.kinds}
+
+    def _nid(self, node):
+        for i, n in enumerate(self.nodes, start=1):
+            if n is node:
+                return i
+        return -1          # a node outside the world (a NoDist)
+
+    def _vid(self, var):
+        for i, v in enumerate(self.vars, start=1):
+            if v is var:
+                return i
+        return 0
+
+    def observe(self):
+        at = []
+        for n in self.nodes:
+            a = getattr(n, "at", None)
+            w = 0
+            if a is not None:
+                w = next((i for i, v in enumerate(self.vars, start=1) if v.var_value_node is a), -1)
+            at.append(w)
+        return {
+            "nvar": [self._vid(n.var) for n in self.nodes],
+            "vval": [self._nid(v.value_node) for v in self.vars],
+            "vdist": [0 if v.dist_node is None else self._nid(v.dist_node) for v in self.vars],
+            "at": at,
+            "vname": [v.name for v in self.vars],
+            "nname": [n.name for n in self.nodes],
+            "pname": [v.var_value_node.name for v in self.vars],
+            "proxy_ok": all(v.var_value_node.inputs == (v.value_node,) and v.var_value_node.var is v for v in self.vars),
+        }
+
+    def op(self, o):
+        rej = "none"
+        try:
+            if o["op"] == "set_value_node":
+                self.vars[o["v"] - 1].value_node = self.nodes[o["n"] - 1]
+            elif o["op"] == "set_dist_node":
+                self.vars[o["v"] - 1].dist_node = None if o["d"] == 0 else self.nodes[o["d"] - 1]
+            elif o["op"] == "set_at":
+                self.nodes[o["d"] - 1].at = None if o["w"] == 0 else self.vars[o["w"] - 1].var_value_node
+            elif o["op"] == "set_var_name":
+                self.vars[o["v"] - 1].name = o["s"]
+            elif o["op"] == "set_node_name":
+                self.nodes[o["n"] - 1].name = o["s"]
+        except RuntimeError as e:
+            m = str(e)
+            rej = "one_var" if "only be part of one var" in m else "part_of_var" if "is part of a var" in m else "other:" + m[:60]
+        return {"ev": "wiring_op", **o, "rej": rej, "obs": self.observe()}
+
+
+def wiring_random_ops(rng, world, n):
+    nn, nv = len(world.free), world.nv
+    vals = [i for i in range(1, nn + nv + 1) if i > nn or world.kinds[i - 1] == "val"]
+    dists = [i for i in range(1, nn + 1) if world.kinds[i - 1] == "dist"]
+    names = ["", "a", "b"]
+    ops = []
+    for _ in range(n):
+        k = rng.random()
+        if k < 0.3:
+            ops.append({"op": "set_value_node", "v": rng.randint(1, nv), "n": rng.choice(vals)})
+        elif k < 0.6 and dists:
+            ops.append({"op": "set_dist_node", "v": rng.randint(1, nv), "d": rng.choice(dists + [0])})
+        elif k < 0.7 and dists:
+            ops.append({"op": "set_at", "d": rng.choice(dists), "w": rng.randint(0, nv)})
+        elif k < 0.9:
+            ops.append({"op": "set_var_name", "v": rng.randint(1, nv), "s": rng.choice(names)})
+        else:
+            ops.append({"op": "set_node_name", "n": rng.randint(1, nn + nv), "s": rng.choice(names)})
+    return ops
+
+
+def wiring_trace(rng, nops=25, ops=None, nv=None, kinds=None):
+    nv = nv or rng.randint(2, 3)
+    kinds = kinds or [rng.choice(["val", "dist"]) for _ in range(rng.randint(2, 4))]
+    w = WiringWorld(nv, kinds)
+    ops = ops if ops is not None else wiring_random_ops(rng, w, nops)
+    return {"hdr": {"kind": "var_wiring", **w.hdr()}, "ev": [w.op(o) for o in ops]}
